@@ -320,43 +320,46 @@ func runC16(w *mon.W) {
 			w.Violation(id, fmt.Sprintf("rebase.%s returned %d entries for %d records", entry, len(got), len(recs)), rep)
 		}
 		bad := false
-		for _, rec := range recs {
-			g, ok := got[rec.Name]
-			w.Add("records_compared", 1)
-			if !ok {
-				w.Violation(id, fmt.Sprintf("enzyme %q is missing from the result", rec.Name), rep)
-				bad = true
-				break
-			}
-			var wantSup []string
-			for i := 0; i < len(rec.Suppliers); i++ {
-				wantSup = append(wantSup, suppliers[rec.Suppliers[i]])
-				w.Add("supplier_letters_decoded", 1)
-			}
-			var d []string
-			chk := func(f, a, b string) {
-				if a != b {
-					d = append(d, fmt.Sprintf("%s: file states %q, got %q", f, clip(a, 80), clip(b, 80)))
+		compare := func(got map[string]rebase.Enzyme, what string) {
+			for _, rec := range recs {
+				g, ok := got[rec.Name]
+				w.Add("records_compared", 1)
+				if !ok {
+					w.Violation(id, fmt.Sprintf("enzyme %q is missing from %s", rec.Name, what), rep)
+					bad = true
+					break
+				}
+				var wantSup []string
+				for i := 0; i < len(rec.Suppliers); i++ {
+					wantSup = append(wantSup, suppliers[rec.Suppliers[i]])
+					w.Add("supplier_letters_decoded", 1)
+				}
+				var d []string
+				chk := func(f, a, b string) {
+					if a != b {
+						d = append(d, fmt.Sprintf("%s: file states %q, got %q", f, clip(a, 80), clip(b, 80)))
+					}
+				}
+				chk("name", rec.Name, g.Name)
+				chk("recognition sequence", rec.Rec, g.RecognitionSequence)
+				chk("methylation site", rec.Meth, g.MethylationSite)
+				chk("organism", rec.Org, g.MicroOrganism)
+				chk("source", rec.Source, g.Source)
+				chk("first reference", rec.Ref, g.References)
+				if !sameList(rec.Iso, g.Isoschizomers) {
+					d = append(d, fmt.Sprintf("isoschizomers: file states %v, got %v", rec.Iso, g.Isoschizomers))
+				}
+				if !sameList(wantSup, g.CommercialAvailability) {
+					d = append(d, fmt.Sprintf("commercial availability %q: the file's supplier table gives %q, got %q (%s indent)", rec.Suppliers, wantSup, g.CommercialAvailability, rep["indent"]))
+				}
+				if len(d) > 0 {
+					w.Violation(id, fmt.Sprintf("enzyme %s in %s: %s", rec.Name, what, joinDiffs(d, 3)), rep)
+					bad = true
+					break
 				}
 			}
-			chk("name", rec.Name, g.Name)
-			chk("recognition sequence", rec.Rec, g.RecognitionSequence)
-			chk("methylation site", rec.Meth, g.MethylationSite)
-			chk("organism", rec.Org, g.MicroOrganism)
-			chk("source", rec.Source, g.Source)
-			chk("first reference", rec.Ref, g.References)
-			if !sameList(rec.Iso, g.Isoschizomers) {
-				d = append(d, fmt.Sprintf("isoschizomers: file states %v, got %v", rec.Iso, g.Isoschizomers))
-			}
-			if !sameList(wantSup, g.CommercialAvailability) {
-				d = append(d, fmt.Sprintf("commercial availability %q: the file's supplier table gives %q, got %q (%s indent)", rec.Suppliers, wantSup, g.CommercialAvailability, rep["indent"]))
-			}
-			if len(d) > 0 {
-				w.Violation(id, fmt.Sprintf("enzyme %s: %s", rec.Name, joinDiffs(d, 3)), rep)
-				bad = true
-				break
-			}
 		}
+		compare(got, "the result")
 		// export parses back to the same map
 		if !bad {
 			var ex []byte
@@ -371,6 +374,11 @@ func runC16(w *mon.W) {
 					w.Add("exports_parsed_back", 1)
 					if len(back) != len(got) {
 						w.Violation(id, fmt.Sprintf("Export: %d entries came back for %d", len(back), len(got)), rep)
+					}
+					// what was exported states what the listing states, and the map handed to Export still does
+					compare(back, "the JSON text Export wrote")
+					if !bad {
+						compare(got, "the map after Export was called on it")
 					}
 					for name, a := range got {
 						b := back[name]
